@@ -245,6 +245,11 @@ func behaviour(r *goja.Runtime) string {
 				add("PANIC", nil, x)
 			}
 		}()
+		// a call from Go first: a stale vm.prg is only visible before the next RunProgram overwrites it
+		if pb, ok := goja.AssertFunction(r.Get("PB")); ok {
+			v, err := pb(goja.Undefined())
+			add("call0", v, err)
+		}
 		v, err := r.RunScript("probe.js", probeScript)
 		add("run", v, err)
 		if pb, ok := goja.AssertFunction(r.Get("PB")); ok {
@@ -269,7 +274,6 @@ func behaviour(r *goja.Runtime) string {
 		}
 		add("try", got, exi)
 	}()
-	out = append(out, "state="+stateVec(r))
 	return common.OneLine(strings.Join(out, " ~ "))
 }
 
